@@ -108,6 +108,24 @@ def impl_checks(ctx):
             if not dom.relclose(got, d, 1e-9):
                 bad("dgor_dpressure_Standing differs from d(solution_gor_Standing)/dp below the bubble point",
                     dict(T=T, p=p, api=api, gg=gg, Rsi=rsi, pb=pb), got, d)
+        # the same pressure handed over in the other forms the function accepts (numpy scalar, 0-d array, one-element float / integer
+        # array): the derivative must not depend on the container
+        if k % 4 == 0:
+            pint = float(int(p)) if 15 < int(p) and abs(int(p) - pb) > 1.5 else None
+            forms = [("numpy float64 scalar", np.float64(p), p), ("0-d array", np.array(p), p), ("one-element float array", np.array([p]), p)]
+            if pint is not None:
+                forms += [("one-element int64 array", np.array([int(pint)]), pint), ("Python int", int(pint), pint), ("numpy int32 scalar", np.int32(pint), pint)]
+            for fname, arg, pval in forms:
+                want_f = float(oil.dgor_dpressure_Standing(T, float(pval), api, gg, rsi))
+                ev += 1
+                try:
+                    got_f = np.asarray(oil.dgor_dpressure_Standing(T, arg, api, gg, rsi), float).ravel()
+                except Exception as e:  # noqa: BLE001
+                    bad("dgor_dpressure_Standing fails on a pressure given as " + fname, dict(T=T, p=float(pval), api=api, gg=gg, Rsi=rsi, pb=pb), repr(e)[:160], want_f)
+                    continue
+                if got_f.size != 1 or not dom.relclose(float(got_f[0]), want_f, 1e-12, 1e-300):
+                    bad("dgor_dpressure_Standing depends on the container / dtype in which the pressure is given (" + fname + ")",
+                        dict(T=T, p=float(pval), api=api, gg=gg, Rsi=rsi, pb=pb, form=fname), [float(x) for x in got_f], want_f)
         r = dom.loguniform(rng, 1, 3000)
         d, how = derivative(lambda q: oil.b_o_bubblepoint_Standing(T, api, gg, q), r)
         got = float(oil.db_o_dgor_Standing(T, api, gg, r))
